@@ -37,4 +37,15 @@ def thirdPartyInvite : Obj :=
 
 def keysB : KeyMap := [(bs "b", [(bs "ed25519:1", Props.C02.toy.pub [1, 2, 3])])]
 
+/-- The message event hashed and signed by server `s` under the version 10 rules (toy scheme). -/
+def signedByS : Obj :=
+  (hashAndSignEvent Props.C02.toy sha (bs "s") kp message (rulesOf 10)).2
+
+/-- The message event hashed and signed by another server `t` (which the version does not demand). -/
+def signedByT : Obj :=
+  (hashAndSignEvent Props.C02.toy sha (bs "t") kp message (rulesOf 10)).2
+
+/-- Keys of both `s` and `t`. -/
+def keysST : KeyMap := keysS ++ [(bs "t", [(bs "ed25519:1", Props.C02.toy.pub [1, 2, 3])])]
+
 end Ruma.EventSign.Ex
